@@ -67,7 +67,13 @@ def pytask_execute_task(session: Session, task: PTask) -> bool | None:
             if name in parameters:
                 kwargs[name] = tree_map(lambda x: _safe_load(x, task, True), value)
 
-        task.execute(**kwargs)
+        try:
+            task.execute(**kwargs)
+        except Exception:
+            # Forget the tasks which have been created before the task generator failed.
+            # Otherwise, they are picked up by the next task generator in the same module.
+            COLLECTED_TASKS.pop(task.path if isinstance(task, PTaskWithPath) else None, None)
+            raise
 
         # Parse tasks created with @task.
         name_to_function: Mapping[str, Callable[..., Any] | PTask]
